@@ -498,7 +498,8 @@ func (ft *funcTrans) instr(in ssa.Instruction) {
 	case *ssa.Lookup:
 		ft.lookup(x)
 	case *ssa.Range:
-		ft.havocValue(x, "")
+		// the iterator itself is opaque: Next reads the ranged-over value directly
+		ft.vals[x] = &Val{T: Term{w.declConstRaw(w.fresh("iter"), "Int"), &Sort{Name: "Int", Kind: KOther}}}
 	case *ssa.Next:
 		ft.next(x)
 	case *ssa.MakeClosure:
